@@ -133,6 +133,56 @@ pub fn execute(duts: &mut Duts, c: &J) -> J {
             }
             o
         }
+        "runset" => {
+            // several inputs that must mean the same (C11): one fresh instance each
+            let w = writer_spec(&c["w"]);
+            let mut all = Vec::new();
+            for i in c["ins"].as_array().unwrap() {
+                d.fresh();
+                all.push(J::Array(d.run(&jbytes(i), &w)));
+            }
+            J::Array(all)
+        }
+        "multi" => {
+            // one input through run with several writers and through process with several
+            // buffer sizes / schedules (C05, C04, C13)
+            let input = jbytes(&c["in"]);
+            let mut runs = Vec::new();
+            for w in c["writers"].as_array().unwrap() {
+                d.fresh();
+                runs.push(J::Array(d.run(&input, &writer_spec(w))));
+            }
+            let mut procs = Vec::new();
+            for p in c["procs"].as_array().unwrap() {
+                d.fresh();
+                let script = Script { stream: input.clone(), chunks: jusizes(&p["chunks"]), fail_at: None, pend: vec![] };
+                procs.push(J::Array(d.process(p["N"].as_u64().unwrap() as usize, script)));
+            }
+            json!({"runs": runs, "procs": procs})
+        }
+        "failset" => {
+            // one session, then the same session with a transport error injected at every
+            // position of the adapter call sequence (C10)
+            let n = c["N"].as_u64().unwrap() as usize;
+            let mk = |fail_at: Option<usize>| Script {
+                stream: jbytes(&c["stream"]),
+                chunks: jusizes(&c["chunks"]),
+                fail_at,
+                pend: vec![],
+            };
+            d.fresh();
+            let reference = d.process(n, mk(None));
+            let ncalls = reference
+                .iter()
+                .filter(|e| matches!(e["e"].as_str(), Some("read" | "write" | "aflush" | "eof")))
+                .count();
+            let mut fs = Vec::new();
+            for i in 0..ncalls {
+                d.fresh();
+                fs.push(J::Array(d.process(n, mk(Some(i)))));
+            }
+            json!({"ref": reference, "f": fs})
+        }
         "parse" => {
             let start: Vec<String> = c["start"]
                 .as_array()
@@ -162,6 +212,9 @@ pub fn judge(c: &J, obs: &J) -> (bool, usize) {
 
 /// Projection of an event list on what the properties pin (drops `ret` statistics etc.)
 pub fn project(evs: &J) -> J {
+    if !evs.is_array() {
+        return evs.clone();
+    }
     let mut out = Vec::new();
     for e in evs.as_array().cloned().unwrap_or_default() {
         match e["e"].as_str().unwrap_or("") {
